@@ -435,6 +435,17 @@ static wire::Msg targeted(wiregen::Rng &r) {
       // signature nesting around the limits (32 arrays, 32 structs, 64 in total, dict entries counting as structs):
       // the codec says which are valid; the reference's separate budget for dict entries is a listed finding
       if (r.chance(30)) { std::string open(32, '('), close(32, ')'); m.set_body({Value::sigval(open + "i" + close)}); break; }                   // 32 structs: allowed
+      if (r.chance(25)) {
+        // dict entries nested around 32 deep (alone, or inside a few structs)
+        int nd = 29 + (int)r.below(6), pre = r.chance(50) ? 0 : (int)r.below(4);
+        std::string sig = std::string(pre, '(');
+        for (int i = 0; i < nd; i++) sig += "a{s";
+        sig += "i";
+        for (int i = 0; i < nd; i++) sig += "}";
+        sig += std::string(pre, ')');
+        m.set_body({Value::sigval(sig)});
+        break;
+      }
       int ns = 29 + (int)r.below(5), na = r.chance(40) ? 0 : 28 + (int)r.below(6);
       static const char *inner[] = {"i", "a{sv}", "a{sa{sv}}", "a{s(i)}", "(a{sv})"};
       std::string sig = std::string(ns, '(') + std::string(na, 'a') + inner[r.below(5)] + std::string(ns, ')');
@@ -442,7 +453,13 @@ static wire::Msg targeted(wiregen::Rng &r) {
       break;
     }
     case 5: { m.set_body({Value::sigval(std::string(32, 'a') + "i")}); break; }                                                                  // 32 arrays: allowed
-    default: { m.set_field(wire::F_DESTINATION, Value::string(":1.0")); m.set_field(wire::F_SENDER, Value::string(":a-b.c_d")); break; }
+    default: {
+      // unique names, valid and nearly valid (the codec says which; the reference's lax grammar is a listed finding)
+      static const char *un[] = {":1.0", ":1.0", ":1", ":", ":.1", ":1..2", ":1.", ":1.2.", ":1.2..3", ":a.b/c", ":1. 2", "::1.2", ":-._"};
+      m.set_field(wire::F_DESTINATION, Value::string(un[r.below(13)]));
+      m.set_field(wire::F_SENDER, Value::string(r.chance(70) ? ":a-b.c_d" : un[r.below(13)]));
+      break;
+    }
   }
   return m;
 }
